@@ -581,7 +581,26 @@ def plsr_fit_case(p):
     e_yscores = lst(C.q_list(Yf[0][:, c].tolist()) for c in range(ncomp))
     case = (f"{p.get('ctor', 'KPlsrFit')} {C.nat(p['n_iter'])} {C.nat(ncomp)} {C.q(min(p['tol'], 1e30))} {lst(itape)} {btape} {qt(X)} {qt(Y2)} "
             f"{e_loads} {e_scores} {e_yloads} {e_yscores}")
-    return "ok", case
+    cases = [case]
+    if p.get("ctor") is None:
+        # the two-fit statements under the Coq-evaluated correspondence: the implementation is run on re-ordered / shifted data,
+        # the model on the ORIGINAL data (answer tapes of the original run): shift -> same loadings and scores; permutation ->
+        # same loadings, scores re-ordered by pick
+        perm = list(range(X.shape[0])); random.Random(int(abs(float(X.ravel()[0])) * 1e6) + X.size).shuffle(perm)
+        cshift = 0.25 * np.arange(1, int(np.prod(X.shape[1:])) + 1, dtype=np.float64).reshape(X.shape[1:]) - 1.0
+        dshift = 0.5 * np.arange(1, Y2.shape[1] + 1, dtype=np.float64) - 2.0
+        def expected(rr, cname, extra=""):
+            Xg = [np.asarray(f, dtype=np.float64) for f in rr.X_factors]; Yg = [np.asarray(f, dtype=np.float64) for f in rr.Y_factors]
+            return (f"{cname} {extra}{C.nat(p['n_iter'])} {C.nat(ncomp)} {C.q(min(p['tol'], 1e30))} {lst(itape)} {btape} {qt(X)} {qt(Y2)} "
+                    f"{lst(lst(qt(f[:, c]) for f in Xg[1:]) for c in range(ncomp))} {lst(C.q_list(Xg[0][:, c].tolist()) for c in range(ncomp))} "
+                    f"{lst(qt(Yg[1][:, c]) for c in range(ncomp))} {lst(C.q_list(Yg[0][:, c].tolist()) for c in range(ncomp))}")
+        st3, r3 = call(fit_plsr_opts, X[perm], (Y2 if Y.ndim == 2 else Y)[perm], ncomp, p["n_iter"], p["tol"])
+        if st3 == "ok" and plsr_wellposed(r3):
+            cases.append(expected(r3, "KPlsrFitPerm", C.nat_list(perm) + " "))
+        st4, r4 = call(fit_plsr_opts, X + cshift, (Y2 + dshift) if Y.ndim == 2 else (Y + dshift[0]), ncomp, p["n_iter"], p["tol"])
+        if st4 == "ok" and plsr_wellposed(r4):
+            cases.append(expected(r4, "KPlsrFit"))
+    return "ok", cases
 
 
 # ----------------------------------------------------------------------------- the regressors' fit loop
@@ -659,6 +678,16 @@ def loop_case(p):
     st, r = call(fit_loop, p, N, tol)
     if st != "ok":
         return "fit-raised", None
+    # the random initial factors, replayed from the seeded generator in the order the source draws them (CP: one (d, rank)
+    # matrix per mode of X then of y; Tucker: the core, then one (d_i, g_i) matrix per mode): pass 1 can then be certified too
+    import tensorly as tl
+    g = tl.check_random_state(p["seed"])
+    if cp:
+        W0 = [g.randn(d, p["rank"]) for d in p["X"].shape[1:]] + [g.randn(d, p["rank"]) for d in p["y"].shape[1:]]
+        G0 = None
+    else:
+        G0 = g.randn(*p["rank"])
+        W0 = [g.randn(d, q) for d, q in zip(p["X"].shape[1:], p["rank"])]
     eW = np.asarray(r.weight_tensor_, dtype=np.float64)
     # the statements of the property on this run too (a run that stops by convergence is rare among the random fits)
     p["loop_bad"] = reg_predicates(dict(kind="cp" if cp else "tucker", X=p["X"], Xn=p["X"][:2]), r)
@@ -667,11 +696,11 @@ def loop_case(p):
         tape = lst(lst(qt(f) for f in b[1]) for b in its)
         so = tuple(p["y"].shape[1:])
         R = p["rank"]
-        case = (f"KCpLoop {C.nat(N)} {qtol} {C.q(float(p['reg']))} {C.nat(R)} {C.nat_list(so)} {qt(p['X'])} {qt(p['y'])} {tape} "
+        case = (f"KCpLoop {C.nat(N)} {qtol} {C.q(float(p['reg']))} {C.nat(R)} {C.nat_list(so)} {qt(p['X'])} {qt(p['y'])} {lst(qt(f) for f in W0)} {tape} "
                 f"{qt(eW)} {lst(qt(f) for f in r.cp_weight_[1])}")
     else:
         tape = lst(f"({qt(b[0])}, {lst(qt(f) for f in b[1])})" for b in its)
-        case = f"KTkLoop {C.nat(N)} {qtol} {C.q(float(p['reg']))} {qt(p['X'])} {qt(p['y'])} {tape} {qt(eW)}"
+        case = f"KTkLoop {C.nat(N)} {qtol} {C.q(float(p['reg']))} {qt(p['X'])} {qt(p['y'])} {qt(G0)} {lst(qt(f) for f in W0)} {tape} {qt(eW)}"
     return "ok", case
 
 
@@ -778,6 +807,8 @@ def run(chk):
         if c is None:
             skipped += 1
             continue
+        extra = c[1:] if isinstance(c, list) else []
+        c = c[0] if isinstance(c, list) else c
         cases.append(f"({len(cases)}%nat, {c})")
         if p["kind"].endswith("_loop"):
             meta.append({"kind": p["kind"], "case": c.split(" ", 1)[0], "X_shape": list(p["X"].shape), "y_shape": list(np.shape(p["y"])),
@@ -789,6 +820,21 @@ def run(chk):
                      "params": {k: p[k] for k in ("ncomp", "n_iter", "tol")}, "problem": describe(p)})
         chk.count(key=(p["kind"], p["X"].shape, np.shape(p["y"]), p["ncomp"], p["n_iter"], p["tol"]), nontrivial=True)
         chk.hist("case", p.get("ctor", "KPlsrFit")); chk.hist("plsr_fit_passes", f"n_iter_max={p['n_iter']} tol={p['tol']}")
+        for c2 in extra:
+            cases.append(f"({len(cases)}%nat, {c2})")
+            meta.append({"kind": p["kind"], "case": c2.split(" ", 1)[0] + " (two-fit: " + ("permuted" if c2.startswith("KPlsrFitPerm") else "shifted") + " run)",
+                         "X_shape": list(p["X"].shape), "y_shape": list(np.shape(p["y"])), "params": {k: p[k] for k in ("ncomp", "n_iter", "tol")}, "problem": describe(p)})
+            chk.count(n=1); chk.hist("case", "KPlsrFitPerm" if c2.startswith("KPlsrFitPerm") else "KPlsrFit(shifted run)")
+    # the budget test of CP_PLSR.fit (n_iter_max = 0 raises iff there is a component to fit)
+    Xb = dyadic(rng, (4, 2, 3), denom=8); Yb = dyadic(rng, (4, 2), denom=8)
+    for n_it, n_c in ((0, 1), (0, 2), (0, 0), (1, 0), (1, 1)):
+        try:
+            out = call(fit_plsr_opts, Xb, Yb, n_c, n_it, 0.0)
+        except Skip:
+            continue
+        cases.append(f"({len(cases)}%nat, KPlsrBudget {C.nat(n_it)} {C.nat(n_c)} {qt(Xb)} {qt(Yb)} {C.boolc(out[0] != 'ok')})")
+        meta.append({"kind": "plsr_budget", "case": "KPlsrBudget", "params": {"n_iter_max": n_it, "n_components": n_c, "outcome": out[0] if out[0] == "ok" else out[1]}})
+        chk.count(key=("plsr_budget", n_it, n_c), nontrivial=True); chk.hist("case", "KPlsrBudget")
     for p in problems:
         try:
             status, bad, cs, comparable = eval_problem(p)
@@ -830,9 +876,10 @@ def run(chk):
                        "converged fits and fits stopped after 1-3 passes): X_mean_, transform(X), transform(X_train, Y_train)[1], predict from the fitted attributes -> model in 70-bit binary fixed point vs implementation (1e-9); "
                        "whole CP_PLSR.fit with pinned pass counts (tol=0: n_iter_max in 1-4 resp. up to 30 in thorough; tol=1e300: stops after pass 2), samples 3-7, 1-3 components, "
                        "initialize_cp / lstsq answers recorded from the implementation -> per-component loadings, X/Y scores, Y loadings of the model (fixed point) vs implementation (1e-8); "
+                       "for each of these fits the implementation is also run on re-ordered samples and on shifted data (X + constant tensor, Y + constant row) and compared with the model's fit of the ORIGINAL data (KPlsrFitPerm: scores re-ordered by pick; shifted run: identical loadings and scores); the budget test (n_iter_max = 0 raises iff n_components > 0); "
                        "the same run to convergence (n_iter_max=100) with a tolerance placed by a pilot in a gap of the observed score movements, compared where the model's stopping decisions have a 1.25 margin; "
                        "the regressors' fit loop: tape of iterates from runs with n_iter_max=1..6 (tol=-1), then a run that never stops / stops from the third pass / stops at a later pass with a margin-chosen tol: "
-                       "model loop (concrete ridge blocks of both regressors, incl. the Tucker core block; every T.solve answer from pass 2 on certified by A x = B at 1e-7 against the model's design matrices) must store the implementation's weight_tensor_ / factors (1e-8); "
+                       "model loop (concrete ridge blocks of both regressors, incl. the Tucker core block; every T.solve answer certified by A x = B at 1e-7 against the model's design matrices, pass 1 included: the random initial factors are replayed from the seeded generator) must store the implementation's weight_tensor_ / factors (1e-8); "
                        "a case is non-trivial if the fit succeeded with finite weights; distinct key = (regressor, X shape, y shape, rank)")
     for b in broken:
         chk.broken.append({"what": "correspondence corr:C19 shard not evaluated", "detail": b})
@@ -844,7 +891,7 @@ def run(chk):
                        "size-0 modes are outside the model"]
     chk.trusted = ["cp_to_tensor / tucker_to_tensor / multi_mode_dot / outer are modelled by their entrywise meaning (their code-level models are C02/C03); tied to the code by this run's Q cases",
                    "CP_PLSR: the SVD inside initialize_cp (a function of Z), lstsq (modelled as a function of the normal-equation data T'T, T'u: true of the minimum-norm solution in exact arithmetic) and sqrt are black boxes of the model; their answers are recorded from the implementation for execution",
-                   "T.solve inside the CP ridge blocks is a black box whose recorded answers are certified (A x = B); the first pass of both fits (random initial factors, not observable) is played back from the tape without certificate",
+                   "T.solve inside the CP ridge blocks is a black box whose recorded answers are certified (A x = B); the random initial factors of both regressors are obtained by replaying the seeded generator in the source's draw order (core first for Tucker, then one matrix per mode); a refactoring that changes the draw order would show up as a pass-1 certificate failure",
                    "the code-level models of cp_to_tensor / tucker_to_tensor linked by C19_*_code_level are those of property C03 (Model/Factorized.v, tied to the code by C03's correspondence)",
                    "fixed-point execution (70 fractional bits) of the CP_PLSR model: rounding 1e-21 per operation, compared at 1e-9 / 1e-8"]
     return chk.finish({})
